@@ -198,12 +198,14 @@ unsafe fn level_swap<M: Manager>(
             }
         }
 
-        upper.insert(manager.clone_edge(e));
         for (i, child) in new_children.into_iter().enumerate() {
             // SAFETY: we have exclusive access to all nodes at the old upper
             // level and no child is borrowed.
             manager.drop_edge(unsafe { node.set_child(i, child) });
         }
+        // Insert only now: the node's position in the unique table depends on
+        // its (new) children.
+        upper.insert(manager.clone_edge(e));
     }
 
     abort_on_panic.defuse();
